@@ -615,6 +615,10 @@ func (g *Gen) existingDom(label string) string {
 
 // domOwner returns the account that currently owns name according to the committed state (nil if unknown).
 func (g *Gen) domOwner(name string) *sim.User {
+	// related parties act too: sometimes the recorded beneficiary plays the owner's part
+	if b := g.W.DomainBeneficiary(name); b != nil && g.pct(15, "as-beneficiary") {
+		return b
+	}
 	return g.W.DomainOwner(name)
 }
 
